@@ -13,6 +13,8 @@ CHECKS = {
          "optimal secondary goal over all in-bound reproducing intensities (contract instance at an arbitrary competitor), feasibility whenever the target is reproducible, documented guards", "4 C08"),
  "C09": ("real lsq_linear_minimize / minimize_variance, both stages symbolic: first stage is the ordinary fit, fit quality <= best error + l2_eps, L1 window, minimal summed variance among "
          "all such intensities, <= variance of the ordinary fit, reported variance == variance model (K**2 propagation, default Epsilon), stacked problem feasible incl. padded rows", "4 C09"),
+ "C10": ("real lsq_linear_adaptive / fit_adaptive on symbolic systems: returned intensities and scales satisfy the documented total / offset constraints and the bounds, no feasible "
+         "pair is better for 'unity' / 'max' (contract instance at an arbitrary competitor pair), feasibility, all-in-gamut => scales (1,1) via a closed lemma, prediction identity, name guard", "4 C10"),
  "C05": ("exhaustive grid of (n_samples, batch_size) incl. non-dividing, larger-than-n and 'full' for the gaussian, poisson and excitation models: the real batching code "
          "(padding, block-diagonal stacking, scatter) runs on symbolic contents through the cvxpy shim; z3 decides per row: no exception, the result row is its own block of the "
          "stacked solution, it is optimal for its own target/weights alone (separability instance of the stacked contract), and the stacked problem is feasible whenever each row's is", "4 C05"),
